@@ -871,7 +871,15 @@ def r18g(ctx, run):
         ("?i64 and ?u16", Variant("Ty::Optional", {"sub_ty": I64}), Variant("Ty::Optional", {"sub_ty": U16})),
         ("[]i64 and []u16", Variant("Ty::Slice", {"sub_ty": I64}), Variant("Ty::Slice", {"sub_ty": U16})),
         ("[2]i64 and [3]i64", Variant("Ty::ConcreteArray", {"size": 2, "sub_ty": I64}), Variant("Ty::ConcreteArray", {"size": 3, "sub_ty": I64})),
+        ("rawptr and mut rawptr", Variant("Ty::RawPtr", {"mutable": False}), Variant("Ty::RawPtr", {"mutable": True})),
+        ("i64 and u64", I64, Variant("Ty::UInt", {"0": 64})),
+        ("u16 and u32", U16, Variant("Ty::UInt", {"0": 32})),
+        ("f32 and i32", Variant("Ty::Float", {"0": 32}), Variant("Ty::IInt", {"0": 32})),
+        ("bool and u8", Variant("Ty::Bool"), Variant("Ty::UInt", {"0": 8})),
+        ("char and u8", Variant("Ty::Char"), Variant("Ty::UInt", {"0": 8})),
+        ("str and rawptr", Variant("Ty::String"), Variant("Ty::RawPtr", {"mutable": False})),
     ]
+    simple = {"rawptr and mut rawptr", "i64 and u64", "u16 and u32", "f32 and i32", "bool and u8", "char and u8", "str and rawptr"}
     for desc, A, B in pairs:
         st = mk_state()
         it = make()
@@ -893,7 +901,7 @@ def r18g(ctx, run):
             problems.append("to_previous_type_id gives %#x for a type registered as %#x" % (b2, b1))
         if a1 == b1:
             problems.append("both get the id %#x" % a1)
-        if not (any(t == A for t in pushed) and any(t == B for t in pushed)):
+        if desc not in simple and not (any(t == A for t in pushed) and any(t == B for t in pushed)):
             problems.append("not both types were queued for their own reflection rows (tys_to_compile = %d entries)" % len(pushed))
         run.check(not problems, fn.site(), "%s: distinct, stable ids (%#x, %#x), both queued" % (desc, a1, b1), "to_type_id", key, fn.file, fn.ln,
                   "%s: %s - a type id must identify one type: reflection (size_of, get_type_info, any) would describe the other type" % (desc, "; ".join(problems)))
@@ -971,7 +979,7 @@ def rules(ctx):
         Rule("R18.c", "builtin names: every #builtin use in core has a handler of the matching kind and signature", 50, r18c),
         Rule("R18.d", "per record kind: writer field order/widths = meta.capy struct = BuiltinKind::to_expected", 40, r18d),
         Rule("R18.e", "reflected sizes/aligns/offsets come from codegen's own layout queries", 15, r18e),
-        Rule("R18.g", "type ids identify types: to_type_id as a state machine - stable id per type, distinct ids (and rows) for distinct types incl. generic instantiations", 9, r18g),
+        Rule("R18.g", "type ids identify types: to_type_id as a state machine - stable id per type, distinct ids (and rows) for distinct types incl. generic instantiations and simple types", 16, r18g),
         Rule("R18.h", "the type id written into an `any` / `type` is the id of the value's declared type (not of a type stripped of its nominal wrappers)", 2, r18h),
         Rule("R18.i", "simple type ids carry the size and alignment the layout pass computes (to_type_id and calc_single evaluated per scalar type)", 40, r18i),
         Rule("R18.f", "the kind chain K_infos / K_layouts is name-consistent through every table", 70, r18f),
